@@ -15,10 +15,14 @@ import EzdxfVerif.Gen.Matrix44Py
 import EzdxfVerif.Gen.Matrix44Pyx
 import EzdxfVerif.Gen.TwinsPy
 import EzdxfVerif.Gen.TwinsPyx
+import EzdxfVerif.Gen.TwinLoopsPy
+import EzdxfVerif.Gen.TwinLoopsPyx
+import EzdxfVerif.Lemmas.TwinLoops
 import Mathlib.Tactic.Ring
 import Mathlib.Tactic.Linarith
 import Mathlib.Tactic.SplitIfs
 import Mathlib.Tactic.NormNum
+import Mathlib.Tactic.IntervalCases
 
 namespace EzdxfVerif.Props.C10
 open EzdxfVerif.Rat3 EzdxfVerif.Gen
@@ -513,5 +517,254 @@ theorem twin_rayRay_rad : TwinsPy.rayRay_rad1 = TwinsPyx.rayRay_rad1 ∧ TwinsPy
 example : TwinsPyx.rayRay ⟨1, 0, 0⟩ ⟨1, 1, 0⟩ ⟨1 + 1 / 2000000000, 0, 1⟩ ⟨1 + 1 / 2000000000, 0, 2⟩ (1 / 10000000000) 1 1
     = TwinsPy.rayRay ⟨1, 0, 0⟩ ⟨1, 1, 0⟩ ⟨1 + 1 / 2000000000, 0, 1⟩ ⟨1 + 1 / 2000000000, 0, 2⟩ (1 / 10000000000) 1 1 := by
   decide +kernel
+
+/-! ## 5. Loops (session 3): B-spline Basis / Evaluator, line type renderer, clockwise tests.
+    Gen/TwinLoops{Py,Pyx}.lean hold (a) every loop body and loop test of both twins, cut out of the current source and
+    translated by py2lean (harness/translate/py2lean_c10.py), and (b) the loop skeletons of Model/TwinLoops.lean
+    instantiated with them.  5.1 proves the cuts equal kernel by kernel, 5.2 lifts that through the loops with the generic
+    lemmas of Lemmas/TwinLoops.lean.  The skeleton text the model stands for is compared with the source on every run. -/
+
+open EzdxfVerif TwinLoops
+
+/-! ### 5.1 loop bodies and loop tests -/
+
+theorem twin_fsSpecial : TwinLoopsPy.fsSpecial = TwinLoopsPyx.fsSpecial := by
+  first | rfl | (funext u k; simp only [TwinLoopsPy.fsSpecial, TwinLoopsPyx.fsSpecial])
+theorem twin_fsBack : TwinLoopsPy.fsBack = TwinLoopsPyx.fsBack := by
+  first | rfl | (funext a b c d; simp only [TwinLoopsPy.fsBack, TwinLoopsPyx.fsBack])
+theorem twin_fsUseBisect : TwinLoopsPy.fsUseBisect = TwinLoopsPyx.fsUseBisect := by
+  first | rfl | (funext a; simp only [TwinLoopsPy.fsUseBisect, TwinLoopsPyx.fsUseBisect])
+theorem twin_fsLinear : TwinLoopsPy.fsLinear = TwinLoopsPyx.fsLinear := by
+  first | rfl | (funext a b c d; simp only [TwinLoopsPy.fsLinear, TwinLoopsPyx.fsLinear])
+/-- the comparison of Lib/bisect.py `bisect_right` (key is None) and of the hand rolled `bisect_right` of bspline.pyx -/
+theorem twin_bisectLess : TwinLoopsPy.bisectLess = TwinLoopsPyx.bisectLess := by
+  first | rfl | (funext a b; simp only [TwinLoopsPy.bisectLess, TwinLoopsPyx.bisectLess])
+
+/-- `max(0, span + 1 - j)` (Python) = `i1 = span + 1 - j; if i1 < 0: i1 = 0` (Cython) -/
+theorem twin_bfIndex : TwinLoopsPy.bfIndex = TwinLoopsPyx.bfIndex := by
+  funext span j
+  simp only [TwinLoopsPy.bfIndex, TwinLoopsPyx.bfIndex]
+  split_ifs <;> linarith
+theorem twin_bfLeft : TwinLoopsPy.bfLeft = TwinLoopsPyx.bfLeft := by
+  first | rfl | (funext a b; simp only [TwinLoopsPy.bfLeft, TwinLoopsPyx.bfLeft]; ring)
+theorem twin_bfRight : TwinLoopsPy.bfRight = TwinLoopsPyx.bfRight := by
+  first | rfl | (funext a b; simp only [TwinLoopsPy.bfRight, TwinLoopsPyx.bfRight]; ring)
+/-- the body of the inner loop of A2.2, including the ZeroDivisionError of `N[r] / (right[r+1] + left[j-r])` -/
+theorem twin_bfInner : TwinLoopsPy.bfInner = TwinLoopsPyx.bfInner := by
+  first
+  | rfl
+  | (funext a b c d; simp only [TwinLoopsPy.bfInner, TwinLoopsPyx.bfInner]; twin_close)
+
+theorem twin_swProduct : TwinLoopsPy.swProduct = TwinLoopsPyx.swProduct := by
+  first | rfl | (funext a b; simp only [TwinLoopsPy.swProduct, TwinLoopsPyx.swProduct]; ring)
+theorem twin_swQuot : TwinLoopsPy.swQuot = TwinLoopsPyx.swQuot := by
+  first | rfl | (funext a b; simp only [TwinLoopsPy.swQuot, TwinLoopsPyx.swQuot]; twin_close)
+/-- Python tests `s == 0.0` and returns zeros, Cython tests `s != 0` and returns the quotients: complementary tests -/
+theorem twin_swTest (s : Rat) : TwinLoopsPy.swTest s = !TwinLoopsPyx.swTest s := by
+  simp [TwinLoopsPy.swTest, TwinLoopsPyx.swTest]
+
+/-- the snapping test of `Evaluator.point`: `math.isclose(u, max_t, abs_tol=ABS_TOL)` vs `isclose(u, max_t, REL_TOL, ABS_TOL)`.
+    Before the fix (D13) the Python twin called `math.isclose(u, max_t)` (abs_tol 0): for |max_t| < 1e-3 the twins snapped different
+    parameters and evaluated the curve at different places. -/
+theorem twin_epSnap : TwinLoopsPy.epSnap = TwinLoopsPyx.epSnap := by
+  funext u m; simp only [TwinLoopsPy.epSnap, TwinLoopsPyx.epSnap, isclose_bool]
+theorem twin_edSnap : TwinLoopsPy.edSnap = TwinLoopsPyx.edSnap := by
+  funext u m; simp only [TwinLoopsPy.edSnap, TwinLoopsPyx.edSnap, isclose_bool]
+
+theorem twin_epAccum (s : V3) (n : Rat) (c : V3) : TwinLoopsPyx.epAccum s n c = VectorPy.v3add s (TwinLoopsPy.epTerm n c) := by
+  first | rfl | (simp only [TwinLoopsPyx.epAccum, VectorPy.v3add, TwinLoopsPy.epTerm])
+
+theorem twin_edWeight : TwinLoopsPy.edWeight = TwinLoopsPyx.edWeight := by
+  first | rfl | (funext a b; simp only [TwinLoopsPy.edWeight, TwinLoopsPyx.edWeight]; ring)
+theorem twin_edAccV : TwinLoopsPy.edAccV = TwinLoopsPyx.edAccV := by
+  first | rfl | (funext a b c; simp only [TwinLoopsPy.edAccV, TwinLoopsPyx.edAccV]; twin_close)
+theorem twin_edAccW : TwinLoopsPy.edAccW = TwinLoopsPyx.edAccW := by
+  first | rfl | (funext a b; simp only [TwinLoopsPy.edAccW, TwinLoopsPyx.edAccW]; ring)
+/-- `v -= binomial_coefficient(k, i) * wders[i] * CK[k - i]` vs `v3_sub(v, v3_mul(CK[k - j], binom * wders[j]))` -/
+theorem twin_edSub : TwinLoopsPy.edSub = TwinLoopsPyx.edSub := by
+  first | rfl | (funext a b c d; simp only [TwinLoopsPy.edSub, TwinLoopsPyx.edSub]; twin_close)
+/-- `v / wders[0]` (Python: x / w) vs `Vec3.__truediv__` of vector.pyx (x * (1 / w)): equal over the rationals, same ZeroDivisionError -/
+theorem twin_edDiv : TwinLoopsPy.edDiv = TwinLoopsPyx.edDiv := by
+  funext a w
+  simp only [TwinLoopsPy.edDiv, TwinLoopsPyx.edDiv]
+  split_ifs
+  · rfl
+  · congr 1; simp only [V3.mk.injEq]; refine ⟨?_, ?_, ?_⟩ <;> ring
+theorem twin_edAccum (s : V3) (d : Rat) (c : V3) : TwinLoopsPyx.edAccum s d c = VectorPy.v3add s (TwinLoopsPy.edTerm d c) := by
+  first | rfl | (simp only [TwinLoopsPyx.edAccum, VectorPy.v3add, TwinLoopsPy.edTerm])
+
+theorem twin_rdFits : TwinLoopsPy.rdFits = TwinLoopsPyx.rdFits := by
+  first | rfl | (funext a b; simp only [TwinLoopsPy.rdFits, TwinLoopsPyx.rdFits])
+theorem twin_rdRemain : TwinLoopsPy.rdRemain = TwinLoopsPyx.rdRemain := by
+  first | rfl | (funext a b; simp only [TwinLoopsPy.rdRemain, TwinLoopsPyx.rdRemain]; ring)
+/-- `current_dash_length < ABS_TOL` with ABS_TOL = 1e-12 in both twins (fix 95d8af343: the Python twin tested `== 0`) -/
+theorem twin_rdCycleTest : TwinLoopsPy.rdCycleTest = TwinLoopsPyx.rdCycleTest := by
+  first | rfl | (funext a; simp only [TwinLoopsPy.rdCycleTest, TwinLoopsPyx.rdCycleTest])
+theorem twin_rdMore : TwinLoopsPy.rdMore = TwinLoopsPyx.rdMore := by
+  first | rfl | (funext a b; simp only [TwinLoopsPy.rdMore, TwinLoopsPyx.rdMore])
+theorem twin_rdLess : TwinLoopsPy.rdLess = TwinLoopsPyx.rdLess := by
+  first | rfl | (funext a b; simp only [TwinLoopsPy.rdLess, TwinLoopsPyx.rdLess]; ring)
+theorem twin_rdRest : TwinLoopsPy.rdRest = TwinLoopsPyx.rdRest := by
+  first | rfl | (funext a; simp only [TwinLoopsPy.rdRest, TwinLoopsPyx.rdRest])
+
+/-- `_start.isclose(_end)` (three `math.isclose`) vs `v3_isclose(start, end, REL_TOL, ABS_TOL)` -/
+theorem twin_lsSame : TwinLoopsPy.lsSame = TwinLoopsPyx.lsSame := by
+  funext a b; simp only [TwinLoopsPy.lsSame, TwinLoopsPyx.lsSame, isclose_bool]
+theorem twin_lsLength : TwinLoopsPy.lsLength = TwinLoopsPyx.lsLength ∧ TwinLoopsPy.lsLength_rad1 = TwinLoopsPyx.lsLength_rad1 := by
+  constructor
+  · first | rfl | (funext a b r; simp only [TwinLoopsPy.lsLength, TwinLoopsPyx.lsLength])
+  · first | rfl | (funext a b; simp only [TwinLoopsPy.lsLength_rad1, TwinLoopsPyx.lsLength_rad1]; ring)
+/-- `segment_vec / segment_length` vs `v3_mul(segment_vec, 1.0 / segment_length)` -/
+theorem twin_lsDir : TwinLoopsPy.lsDir = TwinLoopsPyx.lsDir := by
+  funext a b r
+  simp only [TwinLoopsPy.lsDir, TwinLoopsPyx.lsDir]
+  split_ifs
+  · rfl
+  · congr 1; simp only [V3.mk.injEq]; refine ⟨?_, ?_, ?_⟩ <;> ring
+theorem twin_lsStep : TwinLoopsPy.lsStep = TwinLoopsPyx.lsStep := by
+  first | rfl | (funext a b c; simp only [TwinLoopsPy.lsStep, TwinLoopsPyx.lsStep]; twin_close)
+
+theorem twin_cwClosed : TwinLoopsPy.cwClosed = TwinLoopsPyx.cwClosed := by
+  funext a b; simp only [TwinLoopsPy.cwClosed, TwinLoopsPyx.cwClosed, isclose_bool]
+theorem twin_cwAccum (s : Rat) (a b : V2) : TwinLoopsPyx.cwAccum s a b = s + TwinLoopsPy.cwTerm a b := by
+  first | rfl | (simp only [TwinLoopsPyx.cwAccum, TwinLoopsPy.cwTerm])
+theorem twin_cwSign : TwinLoopsPy.cwSign = TwinLoopsPyx.cwSign ∧ TwinLoopsPy.cwSign = TwinLoopsPyx.npSign := by
+  constructor <;> first | rfl | (funext a; simp only [TwinLoopsPy.cwSign, TwinLoopsPyx.cwSign, TwinLoopsPyx.npSign])
+theorem twin_npClosed (a b : V2) : (TwinLoopsPyx.npCloseX a.x b.x && TwinLoopsPyx.npCloseY a.y b.y) = TwinLoopsPy.cwClosed a b := by
+  simp only [TwinLoopsPyx.npCloseX, TwinLoopsPyx.npCloseY, TwinLoopsPy.cwClosed, isclose_bool]
+theorem twin_npAccum (s : Rat) (a b : V2) : TwinLoopsPyx.npAccum s a.x a.y b.x b.y = s + TwinLoopsPy.cwTerm a b := by
+  first | rfl | (simp only [TwinLoopsPyx.npAccum, TwinLoopsPy.cwTerm])
+
+/-! ### 5.2 whole loops -/
+
+/-- `bisect.bisect_right(knots, u, lo, hi)` (Lib/bisect.py) = `bisect_right(knots, u, lo, hi)` of bspline.pyx, any array, any bounds -/
+theorem twin_bisectRight : TwinLoopsPy.bisectRight = TwinLoopsPyx.bisectRight := by
+  simp only [TwinLoopsPy.bisectRight, TwinLoopsPyx.bisectRight, twin_bisectLess]
+
+/-- `Basis.find_span(u)`: same span (or the same non-termination) for every knot vector, order, count and parameter -/
+theorem twin_findSpan : TwinLoopsPy.findSpan = TwinLoopsPyx.findSpan := by
+  simp only [TwinLoopsPy.findSpan, TwinLoopsPyx.findSpan, TwinLoopsPy.findSpanK, TwinLoopsPyx.findSpanK,
+    twin_fsSpecial, twin_fsBack, twin_fsUseBisect, twin_fsLinear, twin_bisectLess]
+
+/-- `Basis.basis_funcs(span, u)` of a non rational basis (A2.2): same values, same ZeroDivisionError, any order -/
+theorem twin_basisFuncsN : TwinLoopsPy.basisFuncsN = TwinLoopsPyx.basisFuncsN := by
+  simp only [TwinLoopsPy.basisFuncsN, TwinLoopsPyx.basisFuncsN, TwinLoopsPy.basisFuncsK, TwinLoopsPyx.basisFuncsK,
+    twin_bfIndex, twin_bfLeft, twin_bfRight, twin_bfInner]
+
+/-- `Basis.span_weighting(nbasis, span)`: the branches are written the other way round in the two twins -/
+theorem twin_spanWeighting : TwinLoopsPy.spanWeighting = TwinLoopsPyx.spanWeighting :=
+  spanWeighting_twin TwinLoopsPy.spanWeightK TwinLoopsPyx.spanWeightK twin_swProduct twin_swQuot twin_swTest
+
+/-- `Basis.basis_funcs(span, u)` including the rational branch -/
+theorem twin_basisFuncs : TwinLoopsPy.basisFuncs = TwinLoopsPyx.basisFuncs := by
+  simp only [TwinLoopsPy.basisFuncs, TwinLoopsPyx.basisFuncs, TwinLoopsPy.basisFuncsK, TwinLoopsPyx.basisFuncsK,
+    twin_bfIndex, twin_bfLeft, twin_bfRight, twin_bfInner, twin_spanWeighting]
+
+/-- `Basis.basis_vector(t)`: list concatenation with possibly negative counts vs conditional `extend` -/
+theorem twin_basisVector : TwinLoopsPy.basisVector = TwinLoopsPyx.basisVector := by
+  simp only [TwinLoopsPy.basisVector, TwinLoopsPyx.basisVector, twin_findSpan, twin_basisFuncs, basisVector_twin]
+
+/-- the summation of `Evaluator.point`: `Vec3.sum` of a generator of products vs in place accumulation of components -/
+theorem twin_pointSum : TwinLoopsPy.pointSum = TwinLoopsPyx.pointSum :=
+  pointSum_twin TwinLoopsPy.epTerm VectorPy.v3add TwinLoopsPyx.epAccum twin_epAccum
+
+/-- `Evaluator.point(u)` (A3.1): snapping of `u`, span search, basis functions (rational or not), weighted sum of the control
+    points; same point, same exception, for every knot vector, weight list, order, control polygon and parameter -/
+theorem twin_evalPoint : TwinLoopsPy.evalPoint = TwinLoopsPyx.evalPoint := by
+  simp only [TwinLoopsPy.evalPoint, TwinLoopsPyx.evalPoint, twin_epSnap, twin_findSpan, twin_basisFuncs, twin_pointSum]
+
+/-- regression witness of D13: parameter range [-1, 0], u = -5e-13 is snapped to max_t = 0 by both twins now -/
+example : TwinLoopsPy.epSnap (-1 / 2000000000000) 0 = true ∧ TwinLoopsPyx.epSnap (-1 / 2000000000000) 0 = true := by decide +kernel
+
+/-- `_render_dashes(length)`: same state afterwards and the same (is_dash, length) sequence; any pattern, any state, any fuel.
+    (Both twins record the pair itself since the fix of D15.) -/
+theorem twin_renderDashes : TwinLoopsPy.renderDashes = TwinLoopsPyx.renderDashes := by
+  funext dashes fuel len st
+  simp only [TwinLoopsPy.renderDashes, TwinLoopsPyx.renderDashes, TwinLoopsPy.renderK, TwinLoopsPyx.renderK,
+    twin_rdFits, twin_rdRemain, twin_rdCycleTest, twin_rdMore, twin_rdLess, twin_rdRest]
+
+/-- the encoding the Cython twin used before the fix of D15 (`length if is_dash else -length`, read back with `copysign` / `abs`)
+    gives the Python sequence exactly when every recorded length has a clear sign bit: the hypothesis that `-0.0` in a pattern broke -/
+theorem twin_renderDashes_signed_encoding (dashes : List Rat) (fuel : Nat) (len : Rat) (st : LtState) :
+    (TwinLoops.renderDashes TwinLoopsPyx.renderK dashes emitPyx fuel len (st, [])).map (fun o => (o.1, o.2.map decodePyx))
+      = TwinLoopsPyx.renderDashes dashes fuel len st := by
+  simp only [TwinLoopsPyx.renderDashes]
+  exact renderDashes_twin _ dashes fuel len st
+
+/-- `_LineTypeRenderer.line_segment(start, end)`: same segments, same state, same exception -/
+theorem twin_lineSegment : TwinLoopsPy.lineSegment = TwinLoopsPyx.lineSegment := by
+  funext dashes fuel
+  simp only [TwinLoopsPy.lineSegment, TwinLoopsPyx.lineSegment, TwinLoopsPy.lineSegK, TwinLoopsPyx.lineSegK,
+    twin_lsSame, twin_lsLength.1, twin_lsDir, twin_lsStep, twin_renderDashes]
+
+/-- `has_clockwise_orientation` of _construct.py and construct.pyx, for vertex lists of ANY length (the unrolled
+    `twin_clockwise3/4` above cover 3 and 4 vertices by path enumeration) -/
+theorem twin_clockwise : TwinLoopsPy.clockwise = TwinLoopsPyx.clockwise := by
+  simp only [TwinLoopsPy.clockwise, TwinLoopsPyx.clockwise, ← twin_cwClosed, ← twin_cwSign.1]
+  exact cw_py_pyx _ _ _ _ twin_cwAccum
+
+/-- `np_support.has_clockwise_orientation` (what `NumpyPath2d` uses with the extension) = the construct function (what it uses
+    without): the numpy loop starts at the LAST vertex instead of appending the first one -/
+theorem twin_clockwiseNp : TwinLoopsPyx.clockwiseNp = TwinLoopsPy.clockwise := by
+  simp only [TwinLoopsPy.clockwise, TwinLoopsPyx.clockwiseNp, ← twin_cwSign.2]
+  exact cw_py_np _ _ _ _ _ _ twin_npClosed twin_npAccum
+
+/-! ### 5.3 `Basis.basis_funcs_derivatives` (first loop) and `Evaluator.derivative` -/
+
+theorem twin_bdIndex : TwinLoopsPy.bdIndex = TwinLoopsPyx.bdIndex := by
+  funext span j
+  simp only [TwinLoopsPy.bdIndex, TwinLoopsPyx.bdIndex]
+  split_ifs <;> linarith
+theorem twin_bdLeft : TwinLoopsPy.bdLeft = TwinLoopsPyx.bdLeft := by
+  first | rfl | (funext a b; simp only [TwinLoopsPy.bdLeft, TwinLoopsPyx.bdLeft]; ring)
+theorem twin_bdRight : TwinLoopsPy.bdRight = TwinLoopsPyx.bdRight := by
+  first | rfl | (funext a b; simp only [TwinLoopsPy.bdRight, TwinLoopsPyx.bdRight]; ring)
+/-- body of the inner loop of A2.3 (lower and upper triangle of `ndu`), including its ZeroDivisionError; the remaining loops of
+    A2.3 are the same text in both twins (checked on every run, DERIV_REWRITES in harness/props/c10_loops.py) -/
+theorem twin_bdInner : TwinLoopsPy.bdInner = TwinLoopsPyx.bdInner := by
+  first
+  | rfl
+  | (funext a b c d; simp only [TwinLoopsPy.bdInner, TwinLoopsPyx.bdInner]; twin_close)
+
+/-- `binomial_coefficient(k, i)`: `math.factorial` (linalg.py) vs the table FACTORIAL[0..18] of bspline.pyx (regenerated), for every
+    k the table covers (the Cython Basis limits the order to 11, so k ≤ 10) and every i -/
+theorem twin_binomial (k i : Nat) (hk : k ≤ 18) : binomPyx TwinLoopsPyx.factorialTable k i = binomPy k i := by
+  have ht : ∀ m, m ≤ 18 → kget TwinLoopsPyx.factorialTable m = (factorial m : Rat) := by
+    intro m hm
+    interval_cases m <;> simp [kget, TwinLoopsPyx.factorialTable, factorial]
+  unfold binomPyx binomPy
+  by_cases h : i > k
+  · simp [h]
+  · simp only [h, if_false]
+    rw [ht k hk, ht (k - i) (by omega), ht i (by omega)]
+
+/-- `Evaluator.derivative(u, n)` (A3.2 and the rational case A4.2): same derivatives, same exceptions, for every knot vector,
+    weights, control polygon, parameter and derivative order, GIVEN the same table of basis function derivatives (`dersFn`, A2.3:
+    kernels above + text identity) and the same binomial coefficients (`twin_binomial`) -/
+theorem twin_evalDerivative (binom : Nat → Nat → Rat) (dersFn : Int → Rat → Nat → Except PyErr (List (List Rat))) :
+    TwinLoopsPy.evalDerivative binom dersFn = TwinLoopsPyx.evalDerivative binom dersFn := by
+  have hp : pointSumPy TwinLoopsPy.edTerm VectorPy.v3add = pointSumPyx TwinLoopsPyx.edAccum :=
+    pointSum_twin TwinLoopsPy.edTerm VectorPy.v3add TwinLoopsPyx.edAccum twin_edAccum
+  simp only [TwinLoopsPy.evalDerivative, TwinLoopsPyx.evalDerivative, TwinLoopsPy.derivK, TwinLoopsPyx.derivK, twin_edSnap,
+    twin_findSpan, twin_edWeight, twin_edAccV, twin_edAccW, twin_edSub, twin_edDiv, hp]
+
+/-! ### 5.4 non-vacuity: the instantiated loops compute the values of the real code (same inputs as in the correspondence stream) -/
+
+example : binomPyx TwinLoopsPyx.factorialTable 10 4 = 210 ∧ binomPy 10 4 = 210 ∧ binomPy 3 5 = 0 := by decide +kernel
+#guard TwinLoopsPy.findSpan [0, 0, 0, 0, 1, 2, 2, 2, 2] 4 5 (3 / 2) = some 4          -- bisect path
+#guard TwinLoopsPyx.findSpan [5 / 2, 7 / 2, 9 / 2, 11 / 2, 13 / 2, 15 / 2] 2 4 5 = some 2  -- linear search path
+#guard TwinLoopsPyx.findSpan [0, 0, 1, 2, 2, 2] 2 4 2 = some 2                      -- special case: walks back over the repeated end knot
+#guard TwinLoopsPy.basisFuncs [0, 0, 0, 0, 1, 2, 2, 2, 2] [] 4 4 (3 / 2) = .ok [1 / 32, 1 / 4, 19 / 32, 1 / 8]
+#guard TwinLoopsPyx.basisFuncs [0, 0, 0, 0, 1, 2, 2, 2, 2] [1, 2, 1, 1, 1] 4 4 (3 / 2) = .ok [2 / 33, 8 / 33, 19 / 33, 4 / 33]
+#guard TwinLoopsPy.basisFuncs [0, 0, 1, 1, 1, 2] [] 3 2 1 = .error .zeroDivision      -- repeated knots: ZeroDivisionError in both twins
+#guard TwinLoopsPyx.evalPoint [0, 0, 0, 0, 1, 2, 2, 2, 2] [] 4 [⟨0, 0, 0⟩, ⟨1, 2, 0⟩, ⟨3, -1, 0⟩, ⟨5, 5, 0⟩, ⟨6, 0, 1⟩] (3 / 2)
+    = some (.ok ⟨9 / 2, 89 / 32, 1 / 8⟩)
+#guard (TwinLoopsPyx.renderDashes [1, 1 / 2] 100 4 (ltInit [1, 1 / 2])).map (·.2)
+    = some [(true, 1), (false, 1 / 2), (true, 1), (false, 1 / 2), (true, 1)]
+#guard (TwinLoopsPy.renderDashes [0, 1 / 2, 1 / 4] 100 1 (ltInit [0, 1 / 2, 1 / 4])).map (·.2)
+    = some [(true, 0), (false, 1 / 2), (true, 1 / 4), (false, 0), (true, 1 / 4)]  -- odd pattern: roles alternate per cycle, a dot first
+#guard TwinLoopsPy.clockwise [⟨0, 0⟩, ⟨0, 1⟩, ⟨1, 1⟩, ⟨1, 0⟩] = .ok true
+#guard TwinLoopsPyx.clockwiseNp [⟨0, 0⟩, ⟨1, 0⟩, ⟨1, 1⟩, ⟨0, 1⟩, ⟨0, 0⟩] = .ok false
+#guard TwinLoopsPyx.clockwise [⟨0, 0⟩, ⟨1, 0⟩] = .error .valueError
 
 end EzdxfVerif.Props.C10
